@@ -220,6 +220,9 @@ func (e *Exec) extend(t Term, w int, signed bool) Term {
 		if lv, ok := litValue(t); ok {
 			return bvLit(w, lv)
 		}
+		if m, ok := c.mapLitIte(t, func(v *big.Int) Term { return bvLit(w, v) }, 0); ok {
+			return m
+		}
 		return c.def(bvSort(w), fmt.Sprintf("((_ extract %d 0) %s)", w-1, t.S))
 	}
 	if lv, ok := litValue(t); ok {
